@@ -383,7 +383,7 @@ func runC08(c *Collector) {
 					if len(nd.hist) > 0 {
 						v.Culprit = nd.hist[len(nd.hist)-1].Kind
 					}
-					v.Replay = map[string]any{"engine": "B-index", "universe": sp, "ops": nd.hist}
+					v.Replay = map[string]any{"engine": "B-index", "universe": sp.name, "alphabet": sp.alphabet, "n": sp.n, "bits": sp.bits, "file_size": sp.fileSz, "max_present": sp.maxPresent, "ops": nd.hist}
 					c.violation(v, len(nd.hist))
 					continue
 				}
